@@ -38,7 +38,7 @@
 (*                                                                              *)
 (* Numbers: prefix sums are 32-bit integers (RangeOK), values are unreduced     *)
 (* rationals over BigNat.  States are 1..n here and 0..n-1 in Python.           *)
-EXTENDS Integers, Sequences, FiniteSets, TLC, Json, SequencesExt, BigNat
+EXTENDS Integers, Sequences, FiniteSets, FiniteSetsExt, TLC, Json, SequencesExt, BigNat
 
 CONSTANTS Cases,     \* explicit cases: records [id, n, wpat, spat, wov, sov, src, snk, cols, lag, mode, pscale]
           SmallNs,   \* sizes for which every source / sink placement is enumerated ...
@@ -79,8 +79,8 @@ RECURSIVE Sorted(_)
 Sorted(S) == IF S = {} THEN <<>>
              ELSE LET x == CHOOSE x \in S : \A y \in S : x <= y IN <<x>> \o Sorted(S \ {x})
 
-MaxOf(S) == CHOOSE x \in S : \A y \in S : y <= x
-MinOf(S) == CHOOSE x \in S : \A y \in S : x <= y
+MaxOf(S) == LET x0 == CHOOSE x \in S : TRUE IN FoldSet(LAMBDA x, acc : IF x > acc THEN x ELSE acc, x0, S)   \* (linear)
+MinOf(S) == LET x0 == CHOOSE x \in S : TRUE IN FoldSet(LAMBDA x, acc : IF x < acc THEN x ELSE acc, x0, S)
 (* nearest member of S at or below / at or above i; 0 / N+1 when there is none *)
 Lo(S, i) == MaxOf({a \in S : a <= i} \cup {0})
 Hi(S, i) == MinOf({a \in S : a >= i} \cup {N + 1})
@@ -115,6 +115,21 @@ QAt(i) ==
      ELSE IF a = 0 THEN BR(Vq(b), 1)
      ELSE IF b = N + 1 THEN BR(Vq(a), 1)
      ELSE BR(Vq(a) * (PR(b) - PR(i)) + Vq(b) * (PR(i) - PR(a)), PR(b) - PR(a))
+
+(* the same value with the nearest absorbing states handed in: SolveQ computes them for all i in two linear
+   sweeps (Lo / Hi filter the whole set for every state, which is quadratic in the size of the set and took
+   12 minutes for 3338 sinks among 5200 states) *)
+QAtW(a, b, i) ==
+     IF a = i THEN BR(Vq(i), 1)
+     ELSE IF a = 0 THEN BR(Vq(b), 1)
+     ELSE IF b = N + 1 THEN BR(Vq(a), 1)
+     ELSE BR(Vq(a) * (PR(b) - PR(i)) + Vq(b) * (PR(i) - PR(a)), PR(b) - PR(a))
+LoSweep(S) == FoldLeft(LAMBDA acc, i : Append(acc, IF i \in S THEN i ELSE acc[Len(acc)]), <<0>>, [i \in 1..N |-> i])
+                                                    \* LoSweep(S)[i + 1] = Lo(S, i)
+HiSweep(S) == FoldLeft(LAMBDA acc, k : Append(acc, IF (N + 1 - k) \in S THEN N + 1 - k ELSE acc[Len(acc)]), <<N + 1>>,
+                       [k \in 1..N |-> k])         \* HiSweep(S)[N + 2 - i] = Hi(S, i)
+SweepsAgree(S) == \A i \in {1, 2, (N + 1) \div 2, N - 1, N} \cap Idx :
+                    LoSweep(S)[i + 1] = Lo(S, i) /\ HiSweep(S)[N + 2 - i] = Hi(S, i)
 
 (* unit-lag mean first-passage time from i into the set S *)
 MAt(S, i) ==
@@ -200,7 +215,10 @@ Prefix ==
 
 SolveQ ==
   /\ pc = "solve_q"
-  /\ q' = V([i \in Idx |-> QAt(i)])
+  /\ LET S  == src \cup snk
+         lo == LoSweep(S)
+         hi == HiSweep(S)
+     IN q' = V([i \in Idx |-> QAtW(lo[i + 1], hi[N + 2 - i], i)])
   /\ pc' = IF mode = "flux" THEN "f_data" ELSE "done"
   /\ UNCHANGED <<cs, w, s, pre, m, cv>>
 
@@ -244,6 +262,8 @@ Lin3(i, x) == BRAdd(BRAdd(IF i > 1 THEN BRScale(w[i - 1], x[i - 1]) ELSE BRZero,
                     IF i < N THEN BRScale(w[i], x[i + 1]) ELSE BRZero)
 
 (* committors *)
+SweepIsDef == HasQ => /\ SweepsAgree(src \cup snk)
+                      /\ \A i \in (IF N <= 64 THEN Idx ELSE {1, 2, (N + 1) \div 2, N - 1, N}) : q[i] = QAt(i)
 PinnedSources == HasQ => \A i \in src : BRIsZero(q[i])
 PinnedSinks   == HasQ => \A i \in snk : BREq(q[i], BROne)
 InUnit        == HasQ => \A i \in Idx : BRIsRat(q[i]) /\ BLe(q[i][1], q[i][2])
